@@ -177,6 +177,13 @@ class Ref:
         if op == 'putself':
             pa = self.selfargs(a)
             return 'none' if pa is None else self.model_op('put', pa, rec)
+        if op == 'removeself':
+            present = (a[0] in self.d and (t != 'tree' or self.d[a[0]])) if t in ('tree', 'hash') else self.lfind(a[0]) is not None
+            if not present:
+                return 'none'
+            m = self.model_op('remove', a, rec)
+            # list table: the name handed in is the name stored in the object get() finds = the first match in look-up order (own = 0)
+            return m + ' 0' if t == 'ltbl' else m
         if op == 'putstrf':
             if t == 'tree':
                 return 'tputf %d %d %d' % (self.kid(a[0] + b'\0'), len(a[0]) + 1, a[1])
@@ -330,6 +337,9 @@ class Ref:
         if op == 'putself':
             pa = self.selfargs(a)
             return 'noself' if pa is None else self.apply1('put', pa)
+        if op == 'removeself':                           # remove(key) with the key pointer being the stored name itself
+            present = (a[0] in self.d and (t != 'tree' or self.d[a[0]])) if t in ('tree', 'hash') else self.lfind(a[0]) is not None
+            return self.apply1('remove', a) if present else 'noself'
         if op == 'putstrf':                              # = put(name, text, strlen(text) + 1); the tree's putstr also stores the name's NUL
             return self.apply1('put', [a[0] + b'\0' if t == 'tree' else a[0], ftext(a[1]) + b'\0'])
         if op == 'addstrf':                              # = addstr(text) = addlast(text, strlen(text)): an empty text is refused
@@ -618,7 +628,7 @@ def decode_args(typ, op, words):
         return [b(words[0]), int(words[1])]
     if op == 'addstrf':
         return [int(words[0])]
-    if op in ('get', 'remove', 'near', 'getmulti', 'push', 'pushstr', 'add', 'addstr', 'addlast', 'addfirst'):
+    if op in ('get', 'remove', 'removeself', 'near', 'getmulti', 'push', 'pushstr', 'add', 'addstr', 'addlast', 'addfirst'):
         return [b(words[0])]
     if op in ('addat', 'setat'):
         return [int(words[0]), b(words[1])]
@@ -694,7 +704,7 @@ def gen_tree(rng, quick):
         for k in pick:
             tg += ['put %s 77007700' % k, 'get %s' % k, 'remove %s' % k, 'near %s' % k]
         for k in pick[:3]:                           # the container's own pointers (newmem=false) handed back to put()
-            tg += ['putself %s 0:-1:0' % k, 'putself %s 1:-1:1' % k, 'putself %s 0:1:1' % k]
+            tg += ['removeself %s' % k, 'putself %s 0:-1:0' % k, 'putself %s 1:-1:1' % k, 'putself %s 0:1:1' % k]
         if ks:
             tg += ['put %s -' % ks[0]]
         for t in tg:
@@ -730,7 +740,7 @@ def gen_hash(rng, quick):
             for k in pick:
                 tg += ['put %s 77007700' % k, 'put %s -' % k, 'get %s' % k, 'remove %s' % k]
             for k in pick[:3]:                       # the container's own pointers (newmem=false) handed back to put()
-                tg += ['putself %s 0:-1:0' % k, 'putself %s 1:-1:1' % k, 'putself %s 0:1:1' % k]
+                tg += ['removeself %s' % k, 'putself %s 0:-1:0' % k, 'putself %s 1:-1:1' % k, 'putself %s 0:1:1' % k]
             for t in tg:
                 H.append(Hist('hash', [rg, opt], pre, t, tail, 'hash/r%d/n%d' % (rg, n)))
             if len(ks) >= 3:
@@ -765,7 +775,7 @@ def gen_ltbl(rng, quick):
             for nm in uniq[:3]:
                 tg += ['put %s 77007700' % hexs(nm), 'get %s' % hexs(nm), 'getmulti %s' % hexs(nm), 'remove %s' % hexs(nm)]
             for nm in uniq[:2]:                      # the container's own pointers (newmem=false) handed back to put()
-                tg += ['putself %s 0:-1:0' % hexs(nm), 'putself %s 1:-1:1' % hexs(nm), 'putself %s 0:1:1' % hexs(nm)]
+                tg += ['removeself %s' % hexs(nm), 'putself %s 0:-1:0' % hexs(nm), 'putself %s 1:-1:1' % hexs(nm), 'putself %s 0:1:1' % hexs(nm)]
             for t in tg:
                 H.append(Hist('ltbl', [opt], pre, t, tail, 'ltbl/o%d/n%d' % (opt, n)))
             if n >= 3:
